@@ -168,7 +168,7 @@ def dash (l : List String) (sep : String) : String := if l.isEmpty then "-" else
 def outcome (cx : Ctx) (b : BState) : String :=
   let slots := finalWant b
   let changes := slots.map (fun s => (s, change cx.env cx.reps s))
-  let lost := changes.any (fun p => p.2 == .lost)
+  let lost := lostFlag cx.env cx.classes cx.reps changes
   let uuidOf := fun (id : Nat) => let p := cx.mountPos[id]!; (mountUUID p.1 p.2).toList
   let urlOf := fun (si : Nat) => (srvURL si).toList
   let blkid := (cx.hash ++ "+123").toList
